@@ -225,13 +225,21 @@ struct RunCtx {
 }
 
 impl RunCtx {
+    /// wall-clock times of this channel are in MICROSECONDS (floor before a call, ceiling after its return)
     fn now_floor(&self) -> u64 {
-        self.t0.elapsed().as_millis() as u64
+        self.t0.elapsed().as_micros() as u64
     }
     fn now_ceil(&self) -> u64 {
         let e = self.t0.elapsed();
-        (e.as_micros() as u64).div_ceil(1000)
+        (e.as_nanos() as u64).div_ceil(1000)
     }
+}
+
+/// the timeout actually passed for a nominal `d` ms: never a whole number of milliseconds, so that an implementation
+/// that rounds its timer down (or up by more than the timer resolution allows to notice) is measured against the
+/// duration the caller asked for
+fn timeout_us(d_ms: u64) -> u64 {
+    if d_ms == 0 { 0 } else { d_ms * 1000 + 100 + (d_ms * 37 % 8) * 100 }
 }
 
 fn model_kind(api: &str, d: u64) -> &'static str {
@@ -290,7 +298,7 @@ fn begin(ctx: &RunCtx, own: &str, spec: &OpSpec, slot: u32) -> (u64, u64) {
         ctx.pending.lock().unwrap().insert(op);
     }
     // the deprecated aliases ignore their timeout: for the monitors they are untimed operations
-    let d = if matches!(spec.api, "tell_blocking" | "ask_blocking" | "ask_join" | "ask_join_panic") { 0 } else { spec.d };
+    let d = if matches!(spec.api, "tell_blocking" | "ask_blocking" | "ask_join" | "ask_join_panic") { 0 } else { timeout_us(spec.d) };
     emit(ctx.run, json!({"e": "OpStart", "op": op, "own": own, "kind": kind, "api": spec.api, "h": 0, "a": ctx.target,
                          "m": m, "d": d, "now": ctx.now_floor(), "erased": spec.erased, "pair": spec.pair, "slot": slot,
                          "jp": spec.api == "ask_join_panic"}));
@@ -305,7 +313,7 @@ fn finish(ctx: &RunCtx, op: u64, res: &str, val: u64, retry: bool) {
 async fn do_async<const K: u32>(ctx: Arc<RunCtx>, r: ActorRef<T>, own: String, spec: OpSpec) {
     let (op, m) = begin(&ctx, &own, &spec, K);
     let msg = MsgK::<K> { m, work: spec.work, run: ctx.run };
-    let dur = Duration::from_millis(spec.d);
+    let dur = Duration::from_micros(timeout_us(spec.d));
     let (res, val, retry) = match spec.api {
         "tell" => {
             let x = if spec.erased {
@@ -397,7 +405,7 @@ fn do_async_boxed<const K: u32>(ctx: Arc<RunCtx>, r: ActorRef<T>, own: String, s
 fn do_blocking<const K: u32>(ctx: Arc<RunCtx>, r: ActorRef<T>, own: String, spec: OpSpec) {
     let (op, m) = begin(&ctx, &own, &spec, K);
     let msg = MsgK::<K> { m, work: spec.work, run: ctx.run };
-    let to = if spec.d > 0 { Some(Duration::from_millis(spec.d)) } else { None };
+    let to = if spec.d > 0 { Some(Duration::from_micros(timeout_us(spec.d))) } else { None };
     let (res, val, retry) = match spec.api {
         "blocking_tell" => {
             let x = if spec.erased {
